@@ -254,8 +254,9 @@ class DictReader:
                 reference = re.sub(pattern=r"(^\$|\[.+$)", repl="", string=reference)  # remove leading $ or trailing [
             if indexing:
                 with contextlib.suppress(Exception):
-                    # return the value of the referenced variable (at the specified index, if given)
-                    value = eval(f"variables['{reference}']{indexing}")  # noqa: S307
+                    # return the resolved value at the specified index
+                    # (the index applies to the value the reference chain ends in, not to an intermediate reference text)
+                    value = eval(f"_resolved{indexing}", {}, {"_resolved": value})  # noqa: S307
         return value
 
     @staticmethod
